@@ -445,7 +445,7 @@ def traces(specs_faults, tag):
                 pass
         todo.append((i, sf, f))
     if todo:
-        with ProcessPoolExecutor(max_workers=14) as ex:
+        with ProcessPoolExecutor(max_workers=core.safe_workers(14)) as ex:
             for (i, sf, f), tr in zip(todo, ex.map(_run_one, [t[1] for t in todo], chunksize=1)):
                 out[i] = tr
                 if "harness_exc" not in tr:
